@@ -128,15 +128,23 @@ def strategy(tier):
 
     @st.composite
     def case(draw):
-        kind = draw(st.sampled_from(["discrete", "discrete", "discrete", "grid", "line"]))
-        if kind == "line":
+        kind = draw(st.sampled_from(["discrete", "discrete", "discrete", "grid", "line", "big"]))
+        if kind == "big":              # blocks of more than 64 / 128 cells, also with zero-extent axes in any position
+            kind = "discrete"
+            big = st.sampled_from([0, 0, 9, 10, 12, 14])
+            w, h, d = draw(big), draw(big), draw(big)
+            if max(w, h, d) == 0:
+                w = 70
+            if sorted((w, h, d))[1] == 0:       # only one populated axis: make it long
+                w, h, d = [(75 if e else 0) for e in (w, h, d)]
+        elif kind == "line":
             w, h, d = draw(st.integers(1, 30)), 0, 0
         elif kind == "grid":
             w, h, d = draw(st.integers(1, 9)), draw(st.integers(1, 7)), 0
         else:
             w, h, d = draw(ext(9)), draw(ext(7)), draw(ext(5))
         c = [draw(st.integers(0, max(w, 1) - 1)), draw(st.integers(0, max(h, 1) - 1)), draw(st.integers(0, max(d, 1) - 1))]
-        r = draw(wone_of(st.integers(0, 3), st.integers(0, 12)))
+        r = draw(wone_of(st.integers(0, 3), st.integers(0, 12))) if max(w, h, d) < 60 else draw(st.sampled_from([3, 20, 33, 40, 80]))
         frac = [draw(st.integers(0, 7)) for _ in range(3)]
         return {"kind": kind, "w": w, "h": h, "d": d, "c": c, "r": r, "frac": frac}
     return case()
